@@ -30,6 +30,12 @@ MUTANTS = [
     {"name": "restore-guard-inverted", "file": "src/broker/store.rs", "old": "if self.global_epoch > other.global_epoch {", "new": "if self.global_epoch < other.global_epoch {", "expect": "C04.D2:restore:"},
     {"name": "free-proxy-served-with-zero", "file": "src/broker/query.rs", "old": "                    address.to_string(),\n                    self.store.global_epoch,\n", "new": "                    address.to_string(),\n                    0,\n", "expect": "C04.D3:served-epoch"},
     {"name": "commit-epoch-not-bumped", "file": "src/broker/migrate.rs", "old": "        let new_epoch = self.store.get_global_epoch() + 1;\n", "new": "        let new_epoch = self.store.get_global_epoch();\n", "expect": "C04.D1:epoch-origin"},
+    {"name": "takeover-bumps-only-at-the-end", "edits": [
+        {"file": "src/broker/update.rs", "after": "    fn takeover_master(", "old": "        let new_epoch = self.store.bump_global_epoch();\n", "new": "        let new_epoch = self.store.get_global_epoch() + 1;\n"},
+        {"file": "src/broker/update.rs", "after": "    fn takeover_master(", "old": "        cluster.epoch = new_epoch;\n        Ok(())", "new": "        cluster.epoch = new_epoch;\n        self.store.bump_global_epoch();\n        Ok(())"},
+        {"file": "src/broker/update.rs", "after": "let proxy_resource = self.generate_new_free_proxy(failed_proxy_address.clone())?;", "old": "        let new_epoch = self.store.bump_global_epoch();\n", "new": "        let new_epoch = self.store.get_global_epoch();\n"}],
+     "expect": "C04.D1:bump:update::MetaStoreUpdate::replace_failed_proxy"},
+    {"name": "cluster-epoch-set-before-err-return", "file": "src/broker/update.rs", "old": "                if removed_chunks.is_empty() {\n                    return Err(MetaStoreError::FreeNodeNotFound);\n                }\n\n                cluster.set_epoch(new_epoch);\n", "new": "                cluster.set_epoch(new_epoch);\n                if removed_chunks.is_empty() {\n                    return Err(MetaStoreError::FreeNodeNotFound);\n                }\n", "expect": "C04.D1:err-after-epoch-write"},
 ]
 
 MS = "broker::store::MetaStore"
@@ -144,7 +150,12 @@ def run(ctx):
         fname = b.path.split("broker::", 1)[-1]
         evs = _events(ctx, eff, b)
         W_all = [e for e in evs if e.tags & CONTENT_TAGS]
-        B = {e.bb for e in evs if "global-epoch" in e.tags}
+        # a crate call is a versioning barrier only when the callee increases the global epoch on *every* Ok path
+        # (must-summary); a callee that may return Ok without the increase leaves its caller's writes unversioned
+        B = {e.bb for e in evs if "global-epoch" in e.tags and _is_barrier(F, eff, e)}
+        for e in evs:
+            if "global-epoch" in e.tags and not _is_barrier(F, eff, e):
+                ctx.info("C04.D1", "may-bump-only:%s:%s" % (fname, (e.callee or "").rsplit("::", 1)[-1]), "%s can return Ok without increasing the global epoch: not counted as versioning for its caller" % e.callee)
         C = {e.bb for e in evs if "cluster-epoch" in e.tags}
         # cluster epoch may also be set by constructing a new ClusterStore (add_cluster)
         for bb, i, s in agg_sites(b, CS):
@@ -219,11 +230,72 @@ def run(ctx):
                           ok="no Err return after %s without versioning" % e.desc,
                           bad="%s can be followed by an Err return with no epoch increase: content changed under an unchanged epoch (flags %s)" % (e.desc, bad[0] if bad else ""),
                           path=("lines " + str(cfg.lines_of_path(b, bad[1] + bad[2][1:]))) if bad else None)
+        # --- a cluster epoch written ahead of the global epoch must not survive an Err return: the next mutator would
+        #     hand out the very same number for different content
+        for e in evs:
+            if "cluster-epoch" not in e.tags or e.bb in B or (e.callee and e.callee in eff.bodies and e.desc.startswith("call ") and not e.callee.endswith("::set_epoch")):
+                continue
+            ctx.call_sites += 1
+            bad = None
+            for desc, succs, res in views:
+                if res is not None and e.bb not in res.exec_blocks:
+                    continue
+                pre = _pre(b, e.bb, B, succs)
+                if pre is None:
+                    continue
+                for x in err_exits:
+                    post = cfg.path_between(b, e.bb, x, avoid=B, succs=succs) if x != e.bb else [x]
+                    if post is not None:
+                        bad = (desc, pre, post)
+                        break
+                if bad:
+                    break
+            ctx.check(bad is None, "C04.D1", "err-after-epoch-write:%s:%s" % (fname, _ekey(e)), site(b, e.bb, e.idx),
+                      ok="no Err return after the cluster epoch write without the global increase",
+                      bad="the cluster epoch is written and an Err return follows with no global epoch increase: the cluster's epoch runs ahead of the global epoch and the next change reuses it (flags %s)" % (bad[0] if bad else ""),
+                      path=("lines " + str(cfg.lines_of_path(b, bad[1] + bad[2][1:]))) if bad else None)
         # --- values written to cluster epochs derive from the increased global epoch
         _epoch_value_origin(ctx, eff, b, du, B, ok_exits, views, fname)
 
     _d2(ctx, eff)
     _d3(ctx)
+
+
+def _is_barrier(F, eff, e):
+    if not (e.callee and e.callee in eff.bodies and e.desc.startswith("call ")):
+        return True   # a direct write of the global epoch
+    return must_bump(F, eff, e.callee)
+
+
+def must_bump(F, eff, path, stack=()):
+    """does every entry -> Ok-exit path of `path` pass a direct global-epoch write or a call that must-bumps"""
+    cache = eff.__dict__.setdefault("_must_bump", {})
+    if path in cache:
+        return cache[path]
+    if path in stack:
+        return False
+    b = eff.bodies.get(path)
+    if b is None:
+        return False
+    evs = [e for e in eff.events(b) if "global-epoch" in e.tags]
+    bar = set()
+    for e in evs:
+        if e.callee and e.callee in eff.bodies and e.desc.startswith("call "):
+            if must_bump(F, eff, e.callee, stack + (path,)):
+                bar.add(e.bb)
+        else:
+            bar.add(e.bb)
+    ok_exits, _ = _exits(b)
+    res = bool(bar)
+    if res and 0 not in bar:
+        for x in ok_exits:
+            if x in bar:
+                continue
+            if cfg.path_between(b, 0, x, avoid=bar) is not None:
+                res = False
+                break
+    cache[path] = res
+    return res
 
 
 def _pre(b, bb, avoid, succs):
